@@ -800,6 +800,17 @@ func checkFieldNames(c *Checked, job JobCfg) string {
 					if strings.HasSuffix(un, "Out") || strings.HasSuffix(un, "MoqParam") || (un[len(un)-1] >= '0' && un[len(un)-1] <= '9') {
 						continue
 					}
+					// "whenever it collides with nothing": another parameter whose generated name has
+					// the same stem (a type-derived name equal to the written one) is a collision
+					clash := false
+					for j := range params {
+						if j != i && strings.TrimRight(params[j], "0123456789") == un {
+							clash = true
+						}
+					}
+					if clash {
+						continue
+					}
 					if params[i] != un && !quals[un] {
 						return fmt.Sprintf("method %s: parameter written %s in the interface is generated as %s", fd.Name.Name, un, params[i])
 					}
